@@ -443,7 +443,7 @@ func (s *streamGRPC) RecvMsg(m interface{}) error {
 	}
 	if stats := s.opts.statsHandler; stats != nil {
 		// TODO: raw payload stats.
-		b := b[headerLen:] // shadow
+		// b holds the message only, the frame header was consumed above.
 		stats.HandleRPC(s.ctx, inPayload(false, m, b, time.Now()))
 	}
 	return nil
